@@ -127,7 +127,11 @@ func worker(r *vk.Run, w, n int, args []string) {
 				procRun(r, bin, argv)
 			}
 		case 2:
-			override(r, rng)
+			if i%8 == 2 {
+				commute(r, rng)
+			} else {
+				override(r, rng)
+			}
 		case 3:
 			bindRoundTrip(r, rng)
 		}
@@ -346,6 +350,43 @@ func override(r *vk.Run, rng *rand.Rand) {
 	}
 }
 
+// commute: options of unrelated families may be given in either order (this is how a limit given
+// before the thing it limits, e.g. --history-size before --history, must still apply).
+func commute(r *vk.Run, rng *rand.Rand) {
+	pool := append(append([]family{}, families...), valued("--history-size", "3", "7", "50"))
+	f, g := pool[rng.Intn(len(pool))], pool[rng.Intn(len(pool))]
+	if rng.Intn(6) == 0 {
+		f, g = pool[len(pool)-1], family{name: "history", members: [][]string{{"--history=/tmp/verif-h1"}, {"--history", "/tmp/verif-h2"}}}
+	}
+	if f.name == g.name || interferes(f.name, g.name) || f.name == "--height" || g.name == "--height" {
+		return
+	}
+	m1, m2 := f.members[rng.Intn(len(f.members))], g.members[rng.Intn(len(g.members))]
+	ab, ba := concat(m1, m2), concat(m2, m1)
+	vk.SetCase(map[string]any{"ab": ab, "ba": ba})
+	o1, e1, p1, _ := safeParse(false, ab)
+	o2, e2, p2, _ := safeParse(false, ba)
+	r.Eval(1)
+	r.Count("commutation_pairs", 1)
+	wit := map[string]any{"first_order": ab, "second_order": ba}
+	if p1 != nil || p2 != nil {
+		r.Violate(vk.Violation{Summary: fmt.Sprintf("C17: ParseOptions panicked on %q / %q", ab, ba), Witness: wit})
+		return
+	}
+	if (e1 != nil) != (e2 != nil) {
+		r.Violate(vk.Violation{Summary: fmt.Sprintf("C17: %q is %v but %q is %v", ab, errStr(e1), ba, errStr(e2)), Witness: wit})
+		return
+	}
+	if e1 != nil {
+		return
+	}
+	r.Distinct("commute " + f.name + " / " + g.name)
+	if d1, d2 := dumpOpts(o1), dumpOpts(o2); d1 != d2 {
+		wit["difference"] = firstDiff(d1, d2)
+		r.Violate(vk.Violation{Summary: fmt.Sprintf("C17: unrelated options do not commute: parse(%q) differs from parse(%q): %s", ab, ba, firstDiff(d1, d2)), Witness: wit})
+	}
+}
+
 // interferes: options whose effect depends on another family's value
 func interferes(a, b string) bool {
 	pairs := [][2]string{{"--scheme", "--tiebreak"}, {"exact", "extended"}, {"--border", "--border-label"}, {"--height", "--min-height"}, {"--filter", "sort"}, {"sort", "tac"}}
@@ -480,6 +521,9 @@ func layering(r *vk.Run, rng *rand.Rand, w int) {
 		positional(r, rng, file)
 	}
 	malformed(r, rng, file)
+	for k := 0; k < 4; k++ {
+		concatLaw(r, rng, file)
+	}
 	fams := []family{valued("--prompt", "F> ", "E> ", "A> "), valued("--tabstop", "2", "3", "5"), valued("--layout", "default", "reverse", "reverse-list"), valued("--query", "f", "e", "a"), valued("--height", "11", "22%", "33")}
 	f := fams[rng.Intn(len(fams))]
 	vals := [][]string{f.members[0], f.members[2], f.members[4]} // file, env, argv values
@@ -531,6 +575,77 @@ func layering(r *vk.Run, rng *rand.Rand, w int) {
 			r.Violate(vk.Violation{Summary: fmt.Sprintf("C17: precedence file < $FZF_DEFAULT_OPTS < argv violated for %s (file=%v env=%v argv=%v): %s", f.name, useFile, useEnv, useArg, firstDiff(a, b)), Witness: wit})
 		}
 		r.Distinct(fmt.Sprintf("layer %s %d", f.name, mask))
+	}
+}
+
+// concatLaw: the three sources are one command line read in the order file, $FZF_DEFAULT_OPTS, argv:
+// whatever well-formed words they hold, the configuration must be the one obtained from their
+// concatenation given as argv (so an option of an earlier source stays in force unless a later
+// source overrides it, also when the two belong to cooperating options such as --history-size / --history).
+func concatLaw(r *vk.Run, rng *rand.Rand, file string) {
+	pool := append(append([]family{}, families...), valued("--history-size", "3", "7", "50"), valued("--preview-window", "up", "hidden", "right,30%"), valued("--bind", "ctrl-a:up", "ctrl-a:+down", "a,b:put"))
+	pick := func() []string {
+		var out []string
+		for i := 0; i < rng.Intn(4); i++ {
+			g := pool[rng.Intn(len(pool))]
+			out = append(out, g.members[rng.Intn(len(g.members))]...)
+		}
+		return out
+	}
+	layers := [3][]string{pick(), pick(), pick()}
+	for i := range layers {
+		for _, w := range layers[i] {
+			if strings.ContainsAny(w, "\n#") {
+				layers[i] = nil // (comments and line breaks are a matter of the file syntax, not of precedence)
+			}
+		}
+	}
+	os.Unsetenv("FZF_DEFAULT_OPTS_FILE")
+	os.Unsetenv("FZF_DEFAULT_OPTS")
+	if len(layers[0]) > 0 {
+		os.WriteFile(file, []byte(shellJoin(layers[0])+"\n"), 0o644)
+		os.Setenv("FZF_DEFAULT_OPTS_FILE", file)
+	}
+	if len(layers[1]) > 0 {
+		os.Setenv("FZF_DEFAULT_OPTS", shellJoin(layers[1]))
+	}
+	got, err1, pan1, _ := safeParse(true, layers[2])
+	os.Unsetenv("FZF_DEFAULT_OPTS_FILE")
+	os.Unsetenv("FZF_DEFAULT_OPTS")
+	all := concat(layers[0], layers[1], layers[2])
+	want, err2, pan2, _ := safeParse(false, all)
+	r.Eval(1)
+	r.Count("layering_cases", 1)
+	r.Count("concatenation_cases", 1)
+	wit := map[string]any{"file": layers[0], "env": layers[1], "argv": layers[2]}
+	if pan1 != nil || pan2 != nil {
+		r.Violate(vk.Violation{Summary: fmt.Sprintf("C17: ParseOptions panicked on layered sources %v / %v / %v: %v %v", layers[0], layers[1], layers[2], pan1, pan2), Witness: wit})
+		return
+	}
+	if (err1 != nil) != (err2 != nil) {
+		r.Violate(vk.Violation{Summary: fmt.Sprintf("C17: file %q + $FZF_DEFAULT_OPTS %q + argv %q is %s, the same words on one command line are %s", layers[0], layers[1], layers[2], errStr(err1), errStr(err2)), Witness: wit})
+		return
+	}
+	if err1 != nil {
+		return
+	}
+	var sig []string
+	for _, l := range layers {
+		for _, w := range l {
+			if strings.HasPrefix(w, "-") || strings.HasPrefix(w, "+") {
+				sig = append(sig, strings.SplitN(w, "=", 2)[0])
+			}
+		}
+		sig = append(sig, "/")
+	}
+	r.Distinct("concat " + strings.Join(sig, " "))
+	if a, b := dumpOpts(got), dumpOpts(want); a != b {
+		wit["difference"] = firstDiff(a, b)
+		key := ""
+		if strings.Contains(firstDiff(a, b), "maxSize") {
+			key = "F31-history-size-lost-across-sources"
+		}
+		r.Violate(vk.Violation{Key: key, Summary: fmt.Sprintf("C17: file %q + $FZF_DEFAULT_OPTS %q + argv %q does not give the configuration of the same words on one command line: %s", layers[0], layers[1], layers[2], firstDiff(a, b)), Witness: wit})
 	}
 }
 
